@@ -204,6 +204,55 @@ fn body(sc: Sc, v2: bool) -> vsched::Body {
 
 pub const V2: bool = cfg!(feature = "v2");
 
+/// Default port only: the publisher emits bursts larger than the port's buffer, and the forwarding task can be
+/// preempted before each of its receive operations, so it can fall behind again right after it was told that
+/// it had fallen behind. A lagging subscriber may miss messages but keeps receiving later ones, in order: it
+/// ends up with the last publication.
+fn lag_body(bursts: u32, per: u32) -> vsched::Body {
+    Arc::new(move || {
+        Box::pin(async move {
+            let port: Arc<OutputPort<u32>> = Arc::new(OutputPort::default());
+            let global: Arc<Mutex<Vec<(u8, u32)>>> = Arc::new(Mutex::new(vec![]));
+            let l1: L = Arc::new(Mutex::new(vec![]));
+            let l2: L = Arc::new(Mutex::new(vec![]));
+            let (s1, h1) = Actor::spawn(None, Sink { global: global.clone(), id: 1, log: l1.clone(), stop_after: None, slow_ms: 0 }, ()).await.expect("sink");
+            let (s2, h2) = Actor::spawn(None, Sink { global: global.clone(), id: 2, log: l2.clone(), stop_after: None, slow_ms: 0 }, ()).await.expect("sink");
+            port.subscribe(s1.clone(), Some);
+            port.subscribe(s2.clone(), |v| if v % 2 == 0 { Some(v) } else { None });
+            let p2 = port.clone();
+            let publisher = vsched::spawn("publisher", async move {
+                for b in 0..bursts {
+                    for i in 0..per {
+                        p2.send(b * per + i);
+                    }
+                    vsched::yield_now().await;
+                }
+            });
+            let _ = publisher.await;
+            vsched::quiesce_time();
+            let last = bursts * per - 1;
+            let mut bad = Vec::new();
+            for (name, l, want_last) in [("S1", &l1, last), ("S2 (even values)", &l2, if last % 2 == 0 { last } else { last - 1 })] {
+                let got = l.lock().unwrap().clone();
+                if !got.windows(2).all(|w| w[0] < w[1]) {
+                    bad.push(format!("{name} received out of order or twice: {got:?}"));
+                }
+                if got.last() != Some(&want_last) {
+                    bad.push(format!("{name} fell behind and never caught up: the last publication it should have is {want_last}, it received {got:?}"));
+                }
+            }
+            let key = format!("{}+{}", l1.lock().unwrap().len(), l2.lock().unwrap().len());
+            for (r, h) in [(s1, h1), (s2, h2)] {
+                r.stop(None);
+                let _ = h.await;
+            }
+            drop(port);
+            vsched::quiesce();
+            Outcome { key, violations: bad }
+        })
+    })
+}
+
 pub fn plan(tier: &str) -> Plan {
     let thorough = tier == "thorough";
     let cfg = ExecCfg::default();
@@ -233,6 +282,14 @@ pub fn plan(tier: &str) -> Plan {
     scs.push(Sc { n: 6, late_at: 3, stop_after: 1, slow: false, publisher_yields: false, instant: false, solo: false, twice: true });
     // a long stream: subscribers of the default port lag behind (buffer 10)
     scs.push(Sc { n: 25, late_at: 12, stop_after: 4, slow: true, publisher_yields: false, instant: false, solo: false, twice: false });
+    // repeated lag on the default port, with a decision point before every receive of the forwarding tasks
+    {
+        let fine = ExecCfg { filter: Some(Arc::new(|k, l, _t| k == vsched::PointKind::Channel && l == "broadcast.recv")), ..Default::default() };
+        for (bursts, per) in [(3u32, 12u32), (2, 25)] {
+            let b: vsched::Body = if V2 { Arc::new(|| Box::pin(async { Outcome { key: "wrong build".into(), violations: vec!["MACHINERY: unit scheduled on the wrong build".into()] } })) } else { lag_body(bursts, per) };
+            units.push(Unit::explore_split(Job::new(format!("v1/repeated-lag/{bursts}x{per}"), fine.clone(), Some(bound), b), 4));
+        }
+    }
     for build_v2 in [false, true] {
         for sc in &scs {
             let name = format!("{}/n{}-late{}-stop{}-slow{}-yield{}{}", if build_v2 { "v2" } else { "v1" }, sc.n, sc.late_at, sc.stop_after, sc.slow, sc.publisher_yields, if sc.instant { "-instant" } else if sc.solo { "-solo" } else if sc.twice { "-twice" } else { "" });
